@@ -213,23 +213,32 @@ def build_pool(seed, tier):
     groups = []
     failing_sql = set(q for _, q in corpus.FAILING)
     stateful = corpus.STATEFUL + [(None, q) for q in corpus.SOFT_KEYWORDS] + corpus.FAILING
-    for _gi in range(18 if tier == "quick" else 80):
-        kind = rng.choice(["generate", "generate", "generate", "parse", "parse", "tokenize", "transpile"])
+    # kinds, generator options, parser error levels and statement families are cycled (from a random offset), not drawn
+    # independently: every option set and every family is in some group of every pool
+    kinds = ["generate", "parse", "generate", "transpile", "generate", "parse", "tokenize", "generate"]
+    gen_opts = [{"unsupported_level": "RAISE"}, {"identify": True}, {}, {"unsupported_level": "IMMEDIATE"}, {"identify": "safe"}, {"pretty": True},
+                {"identify": True, "unsupported_level": "IMMEDIATE"}, {"unsupported_level": "RAISE", "pretty": True}]
+    levels = ["WARN", None, "IGNORE", "RAISE", "IMMEDIATE", "WARN"]
+    fam_names = sorted(corpus.stateful_families())
+    off = rng.randrange(64)
+    for _gi in range(20 if tier == "quick" else 80):
+        kind = kinds[(_gi + off) % len(kinds)]
+        two_fams = [fam_names[(_gi + off) % len(fam_names)], fam_names[(3 * _gi + off + 1) % len(fam_names)]]
         members = []
         if kind == "generate":
             w = with_settings(rng.choice(hot_writes))
-            opts = dict(rng.choice(hot_opts + [{"unsupported_level": "RAISE"}, {"unsupported_level": "RAISE"}, {"unsupported_level": "IMMEDIATE"}]))
+            opts = dict(gen_opts[(_gi // 2 + off) % len(gen_opts)])
             srcs = [x for x in corpus.STATEFUL + corpus.GENERAL if x[1] not in failing_sql]
             fams = corpus.stateful_families()
-            picked = [x for f in rng.sample(sorted(fams), 2) for x in fams[f]]
+            picked = [x for f in two_fams for x in fams[f]]
             for d, q in picked + rng.sample(srcs, 3):
                 if q not in failing_sql:
                     members.append({"op": "generate", "sql": q, "read": d, "write": w, "opts": opts})
         elif kind == "parse":
             rd = rng.choice([None, "bigquery", "snowflake", "duckdb", "postgres", "spark", "oracle", "tsql", "mysql"])
-            lvl = rng.choice([None, "WARN", "WARN", "IGNORE", "RAISE", "IMMEDIATE"])
+            lvl = levels[(_gi + off) % len(levels)]
             fams = corpus.stateful_families()
-            picked = [x for f in rng.sample(sorted(fams), 2) for x in fams[f]]
+            picked = [x for f in two_fams for x in fams[f]]
             own = rng.random() < 0.5  # parse every statement in its own dialect (several reused parsers) or all in one
             for d, q in picked + rng.sample(corpus.FAILING, 3):
                 members.append({"op": "parse", "sql": q, "read": d if own else rd, "error_level": lvl})
